@@ -48,11 +48,20 @@ Fixpoint strip_ok (sp : kind -> bool -> bool) (pr : kind -> bool) (protected : b
        else no_dsp (oget tx) && fold_ok (flat_map fst res) (add_text collapse None (oget tx), []))
   end.
 
-(* white-space elements are leaves (text:s also without text): the shape every parser / odfdo itself produces *)
+(* text:s elements are leaves without character data: the shape every parser / odfdo itself produces (append_plain_text
+   replaces a text:s by its count of spaces and drops whatever it contains) *)
 Fixpoint wsl (n : node) : bool :=
   match n with
   | Node k _ _ tx ks _ =>
-      (if ws_kind k then is_nil ks && (if is_spacer k then match tx with None => true | Some _ => false end else true) else true)
+      (if is_spacer k then is_nil ks && match tx with None => true | Some _ => false end else true)
       && forallb wsl ks
   end.
 
+
+(* white-space elements carry no character data of their own (the tree-level reading of [in_domain]) *)
+Fixpoint wsnt (n : node) : bool :=
+  match n with
+  | Node k _ _ tx ks _ => (if ws_kind k then match tx with None => true | Some _ => false end else true) && forallb wsnt ks
+  end.
+Definition spans_wf (spans : list (list (nat * nat))) : bool :=
+  forallb (forallb (fun m : nat * nat => fst m <=? snd m)) spans.
